@@ -194,7 +194,7 @@ func classifyKick(c KickCase) (bool, []string) {
 func TestKick(t *testing.T) {
 	pbt.Run(t, pbt.Spec[KickCase]{
 		ID: "C14", Name: "kick", Gen: genKick, Run: runKick, Classify: classifyKick,
-		Quick: 40, Thorough: 300,
+		Quick: 60, Thorough: 300,
 	})
 }
 
@@ -303,7 +303,7 @@ func runBlacklist(c BlacklistCase) *pbt.Violation {
 		time.Sleep(time.Until(expiry.Add(2500 * time.Millisecond)))
 		r, err := rawGet(x.HlsAddr, ip, target)
 		if err != nil {
-			if isTimeout(err) {
+			if isTimeout(err) || isDialError(err) {
 				return inconclusive("bl-after-expiry")
 			}
 			return pbt.V("blacklist/still-blocked-after-expiry", "address %s was black-listed for %d s; 2.5 s after expiry GET %s failed: %v", ip, c.DurationSec, target, err)
@@ -327,6 +327,6 @@ func classifyBlacklist(c BlacklistCase) (bool, []string) {
 func TestIpBlacklist(t *testing.T) {
 	pbt.Run(t, pbt.Spec[BlacklistCase]{
 		ID: "C14", Name: "ip-blacklist", Gen: genBlacklist, Run: runBlacklist, Classify: classifyBlacklist,
-		Quick: 20, Thorough: 45,
+		Quick: 30, Thorough: 45,
 	})
 }
